@@ -78,10 +78,6 @@ Definition vt_set (vt:vtypes) (k:name*name) (ty:sqlty) : vtypes := (k, ty) :: vt
 (* ---- ordering (name, line) pairs ---- *)
 Definition nl_le (a b:name * N) : bool :=
   if N.eqb (snd a) (snd b) then Pos.leb (fst a) (fst b) else N.ltb (snd a) (snd b).
-Fixpoint insert_by {A} (le:A -> A -> bool) (x:A) (l:list A) : list A :=
-  match l with [] => [x] | y :: r => if le x y then x :: l else y :: insert_by le x r end.
-Definition sort_by {A} (le:A -> A -> bool) (l:list A) : list A := fold_right (insert_by le) [] l.
-
 (* lineNumberMap[line] = name for every item in iteration order (the last writer wins), then one lookup per
    sorted line number *)
 Definition last_on_line (items:list (name * N)) (ln:N) : option name :=
@@ -143,14 +139,13 @@ Definition create_level_step (tk ck:order_kind) (m:model) (acc:vtypes * list ddl
 Definition create_from (tk ck:order_kind) (m:model) (st:dstate) : list ddl :=
   snd (fold_left (create_level_step tk ck m) (levels_sorted (bydepth st)) ([], [])).
 
-Definition create (tk ck:order_kind) (fuel:nat) (ord:nat -> list name -> list name) (m:model) : outcome (list ddl) :=
-  match depth_map fuel ord m with
+Definition create (sk:stop_kind) (tk ck:order_kind) (fuel:nat) (ord:nat -> list name -> list name) (m:model) : outcome (list ddl) :=
+  match depth_map sk fuel ord m with
   | Ok st => Ok (create_from tk ck m st)
   | OutOfFuel => OutOfFuel
   end.
 
 (* ---- the delta script ---- *)
-Definition sort_names (l:list name) : list name := sort_by Pos.leb l.
 
 (* writeModifySQLForAColumn: statements, primaryKeys', visitedAttributes', (primaryKeyChanged, isPrimaryKeyOld) *)
 Definition modify_col (cfg:dcfg) (t:name) (oc nc:col) (pks:list name) (vt:vtypes)
@@ -245,11 +240,11 @@ Definition delta_from (cfg:dcfg) (ck:order_kind) (old new:model) (stn:dstate) : 
   snd (fold_left (delta_level_step cfg ck old new) (levels_sorted (bydepth stn)) ([], [])).
 
 (* ProcessModSysls (app present in both versions): both depth maps are computed first *)
-Definition delta (cfg:dcfg) (ck:order_kind) (fuel:nat) (ord:nat -> list name -> list name) (old new:model) : outcome (list ddl) :=
-  match depth_map fuel ord old with
+Definition delta (sk:stop_kind) (cfg:dcfg) (ck:order_kind) (fuel:nat) (ord:nat -> list name -> list name) (old new:model) : outcome (list ddl) :=
+  match depth_map sk fuel ord old with
   | OutOfFuel => OutOfFuel
   | Ok _ =>
-      match depth_map fuel ord new with
+      match depth_map sk fuel ord new with
       | OutOfFuel => OutOfFuel
       | Ok stn => Ok (delta_from cfg ck old new stn)
       end
